@@ -3,9 +3,12 @@ module verif/harness
 go 1.23
 
 require (
+	github.com/golang/protobuf v1.5.3
 	github.com/google/inverting-proxy v0.0.0
 	github.com/gorilla/websocket v1.5.0
 	golang.org/x/net v0.23.0
+	google.golang.org/appengine/v2 v2.0.2
+	google.golang.org/protobuf v1.33.0
 	pgregory.net/rapid v1.3.0
 )
 
@@ -13,7 +16,6 @@ require (
 	cloud.google.com/go/compute/metadata v0.2.3 // indirect
 	cloud.google.com/go/monitoring v1.13.0 // indirect
 	github.com/golang/groupcache v0.0.0-20210331224755-41bb18bfe9da // indirect
-	github.com/golang/protobuf v1.5.3 // indirect
 	github.com/google/go-cmp v0.5.9 // indirect
 	github.com/google/uuid v1.3.0 // indirect
 	github.com/googleapis/enterprise-certificate-proxy v0.2.3 // indirect
@@ -27,7 +29,6 @@ require (
 	google.golang.org/genproto/googleapis/api v0.0.0-20230525234035-dd9d682886f9 // indirect
 	google.golang.org/genproto/googleapis/rpc v0.0.0-20230525234030-28d5490b6b19 // indirect
 	google.golang.org/grpc v1.56.3 // indirect
-	google.golang.org/protobuf v1.33.0 // indirect
 )
 
 replace github.com/google/inverting-proxy => /repo
